@@ -301,6 +301,21 @@ func runTrial(r *vlib.Run, trial int, rng *rand.Rand) {
 		recvTimeout = 50 * time.Millisecond
 	}
 	var names []string
+	// Per-target receive_timeout override in the target's meta: none, enabling
+	// ("50ms") or disabling ("0s") — the effective timeout is the override when
+	// present, else the manager-wide default.
+	overrides := make([]string, nT)
+	effective := make([]time.Duration, nT)
+	for i := 0; i < nT; i++ {
+		overrides[i] = []string{"", "50ms", "0s"}[rng.Intn(3)]
+		effective[i] = recvTimeout
+		switch overrides[i] {
+		case "50ms":
+			effective[i] = 50 * time.Millisecond
+		case "0s":
+			effective[i] = 0
+		}
+	}
 	for i := 0; i < nT; i++ {
 		name := fmt.Sprintf("dev%d", i)
 		names = append(names, name)
@@ -326,10 +341,10 @@ func runTrial(r *vlib.Run, trial int, rng *rand.Rand) {
 			}
 			switch s.Outcome {
 			case "block":
-				if recvTimeout > 0 && rng.Intn(2) == 0 {
+				if effective[i] > 0 && rng.Intn(2) == 0 {
 					s.Action = "none" // the receive timeout ends it
 				} else {
-					s.Action = []string{"reconnect", "remove"}[rng.Intn(2)]
+					s.Action = []string{"reconnect", "remove", "double-remove"}[rng.Intn(3)]
 				}
 				s.ActionAt = k
 				if k > 0 && rng.Intn(2) == 0 {
@@ -340,7 +355,7 @@ func runTrial(r *vlib.Run, trial int, rng *rand.Rand) {
 				case 0:
 					s.Action, s.ActionAt = "reconnect", rng.Intn(k+1)
 				case 1:
-					s.Action, s.ActionAt = "remove", rng.Intn(k+1)
+					s.Action, s.ActionAt = []string{"remove", "double-remove"}[rng.Intn(2)], rng.Intn(k+1)
 				case 2:
 					s.Action = "remove-in-backoff"
 				default:
@@ -413,6 +428,9 @@ func runTrial(r *vlib.Run, trial int, rng *rand.Rand) {
 		i, name := i, name
 		ts := e.targets[name]
 		tgt := &tpb.Target{Addresses: []string{addrOf(i)}}
+		if overrides[i] != "" {
+			tgt.Meta = map[string]string{"receive_timeout": overrides[i]}
+		}
 		settle := func(what string) {
 			// After Remove returned no callback may follow; keep poking Reconnect.
 			ts.mu.Lock()
@@ -451,6 +469,42 @@ func runTrial(r *vlib.Run, trial int, rng *rand.Rand) {
 			e.record(ts, "remove-returned", 0)
 			settle(what)
 		}
+		// Two overlapping Remove calls with a re-Add as soon as the first has
+		// succeeded: every Remove that returns nil removed a managed target (the
+		// original or the re-added one) and must leave it silent.
+		removeDouble := func(what string) bool {
+			res := make(chan error, 2)
+			for k := 0; k < 2; k++ {
+				go func() {
+					err := m.Remove(name)
+					if err == nil {
+						e.record(ts, "remove-returned", 0)
+					}
+					res <- err
+				}()
+			}
+			first := <-res
+			if first != nil {
+				if second := <-res; second != nil {
+					ts.mu.Lock()
+					ts.viol = append(ts.viol, fmt.Sprintf("%s: both of two concurrent Removes of a managed target failed: %v / %v", name, first, second))
+					ts.violSig = append(ts.violSig, "remove-refused")
+					ts.mu.Unlock()
+					return false
+				}
+				settle(what)
+				return add()
+			}
+			if !add() {
+				return false
+			}
+			if second := <-res; second == nil {
+				settle(what + " (the second concurrent Remove removed the re-added target)")
+				r.Count("double_remove_second_removed_readded_target", 1)
+				return add()
+			}
+			return true
+		}
 		wg.Add(1)
 		go func() {
 			defer wg.Done()
@@ -461,7 +515,7 @@ func runTrial(r *vlib.Run, trial int, rng *rand.Rand) {
 			for j, s := range ts.script {
 				// Bounded progress: the j-th session must be opened while the target is managed.
 				if !waitFor(ts, grace, func() bool { return ts.opened > j }) {
-					stuck <- fmt.Sprintf("%s: session %d was never opened within %v although the target is managed (retry loop dead?)", name, j, grace)
+					stuck <- fmt.Sprintf("%s: session %d was never opened within %v although the target is managed (retry loop dead, or a silent stream not ended by the target's effective receive timeout %v?)", name, j, grace, effective[i])
 					return
 				}
 				if j+1 < len(ts.script) {
@@ -478,11 +532,16 @@ func runTrial(r *vlib.Run, trial int, rng *rand.Rand) {
 					r.Count("duplicate_adds_checked", 1)
 				}
 				switch s.Action {
-				case "reconnect", "remove":
+				case "reconnect", "remove", "double-remove":
 					waitFor(ts, grace, func() bool { return ts.opened > j+1 || ts.ended[j] || int(atomic.LoadInt32(&ts.sentN)) >= s.ActionAt })
 					if s.Action == "reconnect" {
 						m.Reconnect(name)
 						r.Count("forced_reconnects", 1)
+					} else if s.Action == "double-remove" {
+						r.Count("double_removes", 1)
+						if !removeDouble(fmt.Sprintf("two concurrent Removes mid-stream, session %d at message %d", j, s.ActionAt)) {
+							return
+						}
 					} else {
 						remove(fmt.Sprintf("mid-stream, session %d at message %d", j, s.ActionAt))
 						r.Count("removes_mid_stream", 1)
@@ -534,7 +593,7 @@ func runTrial(r *vlib.Run, trial int, rng *rand.Rand) {
 		ts.mu.Lock()
 		for i, v := range ts.viol {
 			if i < 3 {
-				r.Violation("script", trial, ts.violSig[i], v, map[string]interface{}{"target": name, "script": describe(ts.script), "trace": kinds(ts.events), "receive_timeout": recvTimeout.String(), "shared_address": shareAddr})
+				r.Violation("script", trial, ts.violSig[i], v, map[string]interface{}{"target": name, "script": describe(ts.script), "trace": kinds(ts.events), "receive_timeout_default": recvTimeout.String(), "receive_timeout_overrides": overrides, "shared_address": shareAddr})
 			}
 		}
 		sig += fmt.Sprintf("%s:%s|", name, strings.Join(kinds(ts.events), ","))
